@@ -249,7 +249,6 @@ func (vm *VirtualMachine) resetForNewCode() {
 	vm.sp = -1
 	vm.ip = 0
 	vm.fp = 0
-	vm.halt = 0
 	vm.activeFrame = nil
 	vm.activeCode = nil
 	vm.loadedCode = map[*compiler.Code]*code{}
